@@ -142,6 +142,7 @@ func runAction(t *T, action func(*T)) (invalid bool, skipped bool) {
 	defer func(draws int) {
 		if r := recover(); r != nil {
 			if _, ok := r.(invalidData); ok {
+				t.failOnError() // a non-fatal failure followed by a skip still falsifies: run no further action
 				invalid = true
 				skipped = t.draws == draws
 			} else {
